@@ -22,6 +22,7 @@ import (
 	"github.com/prometheus/alertmanager/silence"
 	pb "github.com/prometheus/alertmanager/silence/silencepb"
 
+	"verifharness/joinsync"
 	"verifharness/vh"
 )
 
@@ -58,7 +59,84 @@ func silSnapshot(s *silence.Silences) string {
 	return fmt.Sprint(rows)
 }
 
+// judgeBigFullState: a late joiner / a member restarted empty depends on the push/pull full state of its join. The
+// sender holds N silences (tens of KiB up to MiB of state; broadcast unwired, periodic push/pull off): after the join
+// the joiner must hold every one of them. Real cluster.Peers on loopback (harness/joinsync, public API).
+func judgeBigFullState(run *vh.Run, sizes []int) {
+	ctx := context.Background()
+	for _, n := range sizes {
+		mk := func() *silence.Silences {
+			s, err := silence.New(silence.Options{Retention: time.Hour, Metrics: prometheus.NewRegistry()})
+			if err != nil {
+				panic(err)
+			}
+			return s
+		}
+		a, b := mk(), mk()
+		now := time.Now()
+		for i := 0; i < n; i++ {
+			sil := &pb.Silence{
+				MatcherSets: []*pb.MatcherSet{{Matchers: []*pb.Matcher{{Type: pb.Matcher_EQUAL, Name: "instance", Pattern: fmt.Sprintf("host-%05d.example.org:9100", i)}}}},
+				StartsAt:    timestamppb.New(now), EndsAt: timestamppb.New(now.Add(2 * time.Hour)), Comment: "planned maintenance window", CreatedBy: "verif",
+			}
+			if err := a.Set(ctx, sil); err != nil {
+				panic(err)
+			}
+		}
+		state, _ := a.MarshalBinary()
+		label := fmt.Sprintf("%d silences (%d KiB)", n, len(state)/1024)
+		sport, err := joinsync.FreePort()
+		if err != nil {
+			run.Count("big_full_state_part", "skipped: "+err.Error())
+			return
+		}
+		sender, err := joinsync.Start("sender", sport, nil, []joinsync.NamedState{{Key: "sil", State: a}})
+		if err != nil {
+			run.Count("big_full_state_part", "skipped: "+err.Error())
+			return
+		}
+		jport, err := joinsync.FreePort()
+		if err != nil {
+			sender.Leave(time.Second)
+			run.Count("big_full_state_part", "skipped: "+err.Error())
+			return
+		}
+		joiner, err := joinsync.Start("joiner", jport, []string{joinsync.Addr(sport)}, []joinsync.NamedState{{Key: "sil", State: b}})
+		if err != nil {
+			sender.Leave(time.Second)
+			run.Count("big_full_state_part", "skipped: "+err.Error())
+			return
+		}
+		member := joinsync.WaitFor(10*time.Second, func() bool { return len(joiner.Peers()) >= 2 })
+		ok := member && joinsync.WaitFor(10*time.Second, func() bool { return silSnapshot(a) == silSnapshot(b) })
+		held, _, _ := b.Query(ctx)
+		joiner.Leave(time.Second)
+		sender.Leave(time.Second)
+		switch {
+		case !member:
+			run.Count("big_full_state_part", "skipped: the joiner never saw the sender")
+		case !ok:
+			run.Count("big_full_state_part", label+": joiner incomplete")
+			run.Violate("joiner-misses-large-full-state", fmt.Sprintf("a member joined a peer holding %s: after the push/pull full-state exchange of the join it holds %d of them", label, len(held)),
+				Case{Chan: &ChanParams{Seed: uint64(n), Cases: -1}})
+		default:
+			run.Count("big_full_state_part", label+": joiner complete")
+		}
+	}
+}
+
 func judgeChannel(t *testing.T, run *vh.Run, p ChanParams) {
+	if p.Cases < 0 { // replay of a big-full-state case: Seed carries the number of silences
+		judgeBigFullState(run, []int{int(p.Seed)})
+		return
+	}
+	defer func() {
+		sizes := []int{300, 1500}
+		if p.Cases > 30 { // thorough
+			sizes = []int{300, 1500, 5000}
+		}
+		judgeBigFullState(run, sizes)
+	}()
 	g := vh.NewRand(p.Seed)
 	for k := 0; k < p.Cases; k++ {
 		r := g.Fork()
